@@ -631,6 +631,8 @@ def _is_boolish(t):
         nm = str((t[3] or {}).get("name") or "")
         if nm == "from" and len(t[2]) == 1:
             return _is_boolish(strip_deep(t[2][0]))
+        if nm in ("eq", "ne", "lt", "le", "gt", "ge") and (t[3] or {}).get("trait") in ("std::cmp::PartialEq", "std::cmp::PartialOrd"):
+            return True             # a comparison through the operator traits (`x.last() != Some(&b'/')`)
         return nm.startswith(("is_", "ends_with", "starts_with", "contains"))
     return False
 
